@@ -7,6 +7,7 @@
 #
 # @author Davide Brunato <brunato@sissa.it>
 #
+import datetime
 import decimal
 import math
 import urllib.parse
@@ -826,9 +827,12 @@ class XPathToken(Token[ta.XPathTokenType]):
                     _item += timezone.offset
                 elif not isinstance(item, Date):
                     _item += timezone.offset - _tzinfo.offset
-                elif timezone.offset < _tzinfo.offset:
-                    _item -= timezone.offset - _tzinfo.offset
-                    _item -= DayTimeDuration.fromstring('P1D')
+                else:
+                    # the starting instant of the date moved to the other timezone: the
+                    # date part changes by the whole days of the difference (floor)
+                    days = (timezone.offset - _tzinfo.offset) // datetime.timedelta(days=1)
+                    if days:
+                        _item += DayTimeDuration(seconds=days * 86400)
         except OverflowError as err:
             if isinstance(context, XPathSchemaContext):
                 return _item
